@@ -45,7 +45,7 @@ BASE_MIX = {
     'remove_storage': 1,
     'set_property': 6, 'unset_property': 2, 'rename': 2, 'update_labels': 1, 'update_capacities': 1,
     'set_properties': 1, 'prop_setter': 1, 'edit_tracked': 1, 'respell_user_data': 1,
-    'validate': 3, 'roundtrip': 2, 'get_sliver': 3, 'checkpoint': 1, 'diff_slivers': 2,
+    'validate': 3, 'roundtrip': 2, 'get_sliver': 3, 'sliver_copy': 1, 'checkpoint': 1, 'diff_slivers': 2,
     'collect_authz': 2, 'collect_log': 1, 'views_readonly': 1, 'prune': 1, 'label_service_port': 1,
     # substrate flavour
     'node_add_network_service': 0, 'svc_add_interface': 0, 'add_link': 0, 'remove_link': 0,
@@ -58,7 +58,7 @@ SUBSTRATE_MIX = {
     'remove_node': 3, 'remove_component': 3, 'remove_facility': 1, 'remove_switch': 1,
     'set_property': 5, 'unset_property': 2, 'rename': 1, 'get_sliver': 2, 'roundtrip': 2, 'views_readonly': 1,
     'validate': 1, 'add_child_interface': 4, 'remove_child_interface': 2, 'set_properties': 1,
-    'checkpoint': 1, 'diff_slivers': 1, 'edit_tracked': 1, 'respell_user_data': 1,
+    'checkpoint': 1, 'diff_slivers': 1, 'edit_tracked': 1, 'respell_user_data': 1, 'sliver_copy': 1,
 }
 PROP_BOOST = {
     'C07': {'add_child_interface': 8, 'remove_node': 5, 'remove_component': 5, 'failing': 6, 'connect_interface': 9},
@@ -67,7 +67,7 @@ PROP_BOOST = {
             'add_child_interface': 8, 'peer': 5, 'connect_interface': 8, 'add_link': 10, 'svc_add_interface': 10,
             'remove_link': 4, 'svc_remove_interface': 6, 'node_remove_network_service': 5},
     'C09': {'failing': 14, 'peer': 5, 'connect_interface': 8, 'add_child_interface': 5},
-    'C02': {'set_property': 20, 'unset_property': 8, 'get_sliver': 10, 'set_properties': 4, 'prop_setter': 4,
+    'C02': {'set_property': 20, 'unset_property': 8, 'get_sliver': 10, 'sliver_copy': 6, 'set_properties': 4, 'prop_setter': 4,
             'update_labels': 3, 'update_capacities': 3},
     'C10': {'validate': 14, 'add_network_service': 14, 'connect_interface': 8, 'set_property': 8},
     'C11': {'collect_authz': 10, 'collect_log': 5, 'add_port_mirror_service': 10, 'add_facility': 5,
@@ -265,7 +265,7 @@ class W2World(World):
         # ---- the bystander graph in the same store never changes
         if True:
             now = other_graphs_state(self.imp, self.gid())
-            if now != self.by_pre and op not in ('checkpoint', 'roundtrip', 'collect_authz', 'collect_log'):
+            if now != self.by_pre and op not in ('checkpoint', 'roundtrip', 'collect_authz', 'collect_log', 'sliver_copy'):
                 self.flag('C04', 'frame_other_graphs', {'op': op, 'world': 'W2'},
                           'topology call %s changed another graph in the same store' % op)
             self.by_pre = now
